@@ -114,25 +114,28 @@ Record shared := mkSh {
                                 lock a process holds through its open descriptor *)
   next_ino : nat;            (* next fresh inode number: unlink + re-create gives a different file *)
   clock : nat;               (* time.time() *)
-  netreqs : nat              (* number of network requests made so far *)
+  netreqs : nat;             (* number of network requests made so far *)
+  memos : locktab            (* ANTI-PATTERN state only: OS process -> last-update time it remembers *)
 }.
 
 Definition set_files (s : shared) (m : files) : shared :=
-  mkSh m (stamp s) (lockfile s) (locks s) (next_ino s) (clock s) (netreqs s).
+  mkSh m (stamp s) (lockfile s) (locks s) (next_ino s) (clock s) (netreqs s) (memos s).
 Definition set_stamp (s : shared) (t : stamp_state) : shared :=
-  mkSh (files_of s) t (lockfile s) (locks s) (next_ino s) (clock s) (netreqs s).
+  mkSh (files_of s) t (lockfile s) (locks s) (next_ino s) (clock s) (netreqs s) (memos s).
 Definition set_locks (s : shared) (l : locktab) : shared :=
-  mkSh (files_of s) (stamp s) (lockfile s) l (next_ino s) (clock s) (netreqs s).
+  mkSh (files_of s) (stamp s) (lockfile s) l (next_ino s) (clock s) (netreqs s) (memos s).
 Definition set_lockfile (s : shared) (f : option nat) : shared :=
-  mkSh (files_of s) (stamp s) f (locks s) (next_ino s) (clock s) (netreqs s).
+  mkSh (files_of s) (stamp s) f (locks s) (next_ino s) (clock s) (netreqs s) (memos s).
 Definition set_clock (s : shared) (t : nat) : shared :=
-  mkSh (files_of s) (stamp s) (lockfile s) (locks s) (next_ino s) t (netreqs s).
+  mkSh (files_of s) (stamp s) (lockfile s) (locks s) (next_ino s) t (netreqs s) (memos s).
 Definition add_net (s : shared) : shared :=
-  mkSh (files_of s) (stamp s) (lockfile s) (locks s) (next_ino s) (clock s) (S (netreqs s)).
+  mkSh (files_of s) (stamp s) (lockfile s) (locks s) (next_ino s) (clock s) (S (netreqs s)) (memos s).
+Definition set_memos (s : shared) (l : locktab) : shared :=
+  mkSh (files_of s) (stamp s) (lockfile s) (locks s) (next_ino s) (clock s) (netreqs s) l.
 
 (* open(cache_lock.lock, 'a'): creates the file (a fresh inode) when the name does not exist *)
 Definition create_lockfile (s : shared) : shared :=
-  mkSh (files_of s) (stamp s) (Some (next_ino s)) (locks s) (S (next_ino s)) (clock s) (netreqs s).
+  mkSh (files_of s) (stamp s) (Some (next_ino s)) (locks s) (S (next_ino s)) (clock s) (netreqs s) (memos s).
 
 (* the OS drops the advisory lock p holds through descriptor fd (unlock/close, or process death) *)
 Definition release (p : nat) (fd : option nat) (s : shared) : shared :=
@@ -156,8 +159,10 @@ Record cfg := mkCfg {
   nchunks : nat;      (* chunks per file *)
   threshold : nat;    (* CACHE_TIME_THRESHOLD *)
   max_tries : nat;    (* lock attempts before the timeout expires *)
-  unlink_on_release : bool  (* ANTI-PATTERN switch: __exit__ also removes cache_lock.lock; false for
-                               the code as it is and for the repaired protocol *)
+  (* ANTI-PATTERN switches, all false for the code as it is and for the repaired protocol: *)
+  unlink_on_release : bool;     (* __exit__ also removes cache_lock.lock *)
+  cleanup_outside_lock : bool;  (* cache_local_versions deletes every *.tmp BEFORE taking the lock *)
+  memo_stamp : bool             (* the last-update time is memoised per OS process *)
 }.
 
 (* time_since_update < time_threshold, last time 0 when there is no stamp
@@ -174,12 +179,13 @@ Inductive fail : Set :=
 | FParse        (* HedFileError cannotParseXML *)
 | FURLError     (* urllib.error.URLError *)
 | FNotCached    (* HedFileError fileNotFound *)
-| FValueError.  (* ValueError: could not convert string to float *)
+| FValueError   (* ValueError: could not convert string to float *)
+| FFileNotFound. (* FileNotFoundError from os.replace / os.remove of a vanished temporary file *)
 
 Definition fail_exn (e : fail) : exn :=
   match e with
   | FParse => HedFileError | FNotCached => HedFileError
-  | FValueError => ValueError | FURLError => Unmodelled
+  | FValueError => ValueError | FURLError => Unmodelled | FFileNotFound => Unmodelled
   end.
 
 Inductive outcome : Set :=
@@ -193,7 +199,12 @@ Inductive kind : Set :=
 | KRefresh                (* cache_xml_versions(), code as it is *)
 | KDownload (f : nat)     (* _safe_move_tmp_to_folder(tmp, HED<f>.xml) *)
 | KLoadFixed (v : nat)    (* load_schema_version(v), repaired protocol *)
-| KRefreshFixed.          (* cache_xml_versions(), repaired protocol *)
+| KRefreshFixed           (* cache_xml_versions(), repaired protocol *)
+| KRefreshOf (o : nat).   (* the same, as one of several calls made by OS process o *)
+
+(* the OS process a model process (= one call) belongs to; its own by default *)
+Definition owner_of (k : kind) (p : nat) : nat :=
+  match k with KRefreshOf o => o | _ => p end.
 
 Definition target (k : kind) : nat :=
   match k with KLoad v => v | KLoadFixed v => v | KDownload f => f | _ => 0 end.
@@ -218,6 +229,7 @@ Inductive pc : Set :=
 | DReplace (f : nat)     (* os.replace(cache/tmpname, dest) *)
 (* -- repaired protocol -- *)
 | FList1                 (* get_hed_versions: os.listdir *)
+| FClean                 (* ANTI-PATTERN only: remove every *.tmp in the folder, outside the lock *)
 | FEnter                 (* CacheLock.__enter__: read the time stamp (tolerant), threshold test *)
 | FAcquire               (* CacheLock.__enter__: one attempt of portalocker's acquire(timeout) *)
 | FExists (f : nat)
@@ -242,21 +254,24 @@ Record proc := mkProc {
   populated : bool;      (* went through a whole population *)
   cache_err : bool;      (* CacheLock.__enter__ raised CacheException *)
   ts : nat;              (* self.current_timestamp *)
-  fd : option nat        (* inode of the lock file this process has open (portalocker's fh) *)
+  fd : option nat;       (* inode of the lock file this process has open (portalocker's fh) *)
+  nreq : nat             (* network requests this process has made *)
 }.
 
 Definition goto (r : proc) (c : pc) : proc :=
-  mkProc (kind_of r) c (tries r) (populated r) (cache_err r) (ts r) (fd r).
+  mkProc (kind_of r) c (tries r) (populated r) (cache_err r) (ts r) (fd r) (nreq r).
 Definition set_err (r : proc) : proc :=
-  mkProc (kind_of r) (pc_of r) (tries r) (populated r) true (ts r) (fd r).
+  mkProc (kind_of r) (pc_of r) (tries r) (populated r) true (ts r) (fd r) (nreq r).
 Definition set_pop (r : proc) : proc :=
-  mkProc (kind_of r) (pc_of r) (tries r) true (cache_err r) (ts r) (fd r).
+  mkProc (kind_of r) (pc_of r) (tries r) true (cache_err r) (ts r) (fd r) (nreq r).
 Definition set_ts (r : proc) (t : nat) : proc :=
-  mkProc (kind_of r) (pc_of r) (tries r) (populated r) (cache_err r) t (fd r).
+  mkProc (kind_of r) (pc_of r) (tries r) (populated r) (cache_err r) t (fd r) (nreq r).
 Definition inc_tries (r : proc) : proc :=
-  mkProc (kind_of r) (pc_of r) (S (tries r)) (populated r) (cache_err r) (ts r) (fd r).
+  mkProc (kind_of r) (pc_of r) (S (tries r)) (populated r) (cache_err r) (ts r) (fd r) (nreq r).
 Definition set_fd (r : proc) (d : option nat) : proc :=
-  mkProc (kind_of r) (pc_of r) (tries r) (populated r) (cache_err r) (ts r) d.
+  mkProc (kind_of r) (pc_of r) (tries r) (populated r) (cache_err r) (ts r) d (nreq r).
+Definition inc_req (r : proc) : proc :=
+  mkProc (kind_of r) (pc_of r) (tries r) (populated r) (cache_err r) (ts r) (fd r) (S (nreq r)).
 
 Definition start_pc (k : kind) : pc :=
   match k with
@@ -265,9 +280,10 @@ Definition start_pc (k : kind) : pc :=
   | KDownload f => DOpen f
   | KLoadFixed _ => FList1
   | KRefreshFixed => XEnter
+  | KRefreshOf _ => XEnter
   end.
 
-Definition start (k : kind) : proc := mkProc k (start_pc k) 0 false false 0 None.
+Definition start (k : kind) : proc := mkProc k (start_pc k) 0 false false 0 None 0.
 
 Definition cur_content (m : files) (k : fname) : content :=
   match fget m k with Some c => c | None => [] end.
@@ -312,6 +328,30 @@ Definition acquire_step (c : cfg) (p : nat) (s : shared) (r : proc) (ok giveup :
 Definition leave (c : cfg) (p : nat) (d : option nat) (s : shared) : shared :=
   let s1 := release p d s in
   if unlink_on_release c then set_lockfile s1 None else s1.
+
+(* _read_last_cached_time as seen by OS process o.  Code as it is / repaired: the shared file, always.
+   ANTI-PATTERN memo_stamp: a remembered value wins as long as last_update.txt exists. *)
+Definition within_for (c : cfg) (o : nat) (s : shared) : bool :=
+  if memo_stamp c then
+    match lget (memos s) o, stamp s with
+    | Some m, StampAt _ => Nat.ltb (clock s - m) (threshold c)
+    | _, _ => within c s
+    end
+  else within c s.
+
+Definition remember (c : cfg) (o : nat) (s : shared) : shared :=
+  if memo_stamp c then
+    match lget (memos s) o, stamp s with
+    | None, StampAt t => set_memos s (lset (memos s) o t)
+    | _, _ => s
+    end
+  else s.
+
+Definition memo_written (c : cfg) (o t : nat) (s : shared) : shared :=
+  if memo_stamp c then set_memos s (lset (memos s) o t) else s.
+
+Definition not_tmp (kv : fname * content) : bool :=
+  match fst kv with Tmp _ _ => false | Ver _ => true end.
 
 (* one file operation of process p *)
 Definition pstep (c : cfg) (p : nat) (s : shared) (r : proc) : shared * proc :=
@@ -361,7 +401,7 @@ Definition pstep (c : cfg) (p : nat) (s : shared) (r : proc) : shared * proc :=
              else (s, set_ts (goto r RBody) (clock s))
       end
   (* no network: URLError; __exit__ still runs *)
-  | RBody => (add_net s, goto r RExitOpen)
+  | RBody => (add_net s, inc_req (goto r RExitOpen))
   | RExitOpen => (set_stamp s StampTorn, goto r RExitWrite)
   (* "except CacheException or ValueError or URLError" catches CacheException only *)
   | RExitWrite => (set_stamp s (StampAt (ts r)), goto r (Done (OFail FURLError)))
@@ -372,8 +412,13 @@ Definition pstep (c : cfg) (p : nat) (s : shared) (r : proc) : shared * proc :=
       (set_files s (fset m (Tmp p f) []),
        goto r (if Nat.eqb (nchunks c) 0 then DReplace f else DWrite f 0))
   | DWrite f i =>
-      (set_files s (fset m (Tmp p f) (write_at i (cur_content m (Tmp p f)))),
-       goto r (after_chunk c i (DWrite f (S i)) (DReplace f)))
+      (* (a file whose name was removed meanwhile is still written through the open descriptor,
+         but the name stays gone) *)
+      match fget m (Tmp p f) with
+      | Some x => (set_files s (fset m (Tmp p f) (write_at i x)),
+                   goto r (after_chunk c i (DWrite f (S i)) (DReplace f)))
+      | None => (s, goto r (after_chunk c i (DWrite f (S i)) (DReplace f)))
+      end
   | DReplace f =>
       match fget m (Tmp p f) with
       | Some x => (set_files s (fset (fdel m (Tmp p f)) (Ver f) x), goto r (Done OMoved))
@@ -382,7 +427,11 @@ Definition pstep (c : cfg) (p : nat) (s : shared) (r : proc) : shared * proc :=
   (* ---- repaired protocol ---- *)
   (* get_hed_versions as before: the cache is seeded only when the folder is empty; the lookup
      uses this listing, and (fix F3) a version missing from it is looked up in the installed folder *)
-  | FList1 => if dir_empty s then (s, goto r FEnter) else (s, goto r (lookup_fixed c m v))
+  | FList1 =>
+      if dir_empty s then (s, goto r (if cleanup_outside_lock c then FClean else FEnter))
+      else (s, goto r (lookup_fixed c m v))
+  (* ANTI-PATTERN: "remove leftover temporary files" before (= outside) the lock *)
+  | FClean => (set_files s (filter not_tmp m), goto r FEnter)
   (* CacheLock.__enter__ (fix F4: an unreadable stamp counts as 0): threshold test first ... *)
   | FEnter => if within c s then (s, set_err (goto r FCheck)) else (s, goto r FAcquire)
   (* ... then (fix F1) the lock is really acquired; LockException -> CacheException -> -1 *)
@@ -395,12 +444,17 @@ Definition pstep (c : cfg) (p : nat) (s : shared) (r : proc) : shared * proc :=
       (set_files s (fset m (Tmp p f) []),
        goto r (if Nat.eqb (nchunks c) 0 then FReplace f else FTWrite f 0))
   | FTWrite f i =>
-      (set_files s (fset m (Tmp p f) (write_at i (cur_content m (Tmp p f)))),
-       goto r (after_chunk c i (FTWrite f (S i)) (FReplace f)))
+      match fget m (Tmp p f) with
+      | Some x => (set_files s (fset m (Tmp p f) (write_at i x)),
+                   goto r (after_chunk c i (FTWrite f (S i)) (FReplace f)))
+      | None => (s, goto r (after_chunk c i (FTWrite f (S i)) (FReplace f)))
+      end
+  (* os.replace of a temporary file that is gone: FileNotFoundError (again from the os.remove in
+     the handler); __exit__ releases the lock; cache_local_versions catches CacheException only *)
   | FReplace f =>
       match fget m (Tmp p f) with
       | Some x => (set_files s (fset (fdel m (Tmp p f)) (Ver f) x), goto r (FExists (S f)))
-      | None => (s, goto r (FExists (S f)))
+      | None => (leave c p (fd r) s, set_fd (goto r (Done (OFail FFileNotFound))) None)
       end
   | FRelease => (leave c p (fd r) s, set_fd (set_pop (goto r FCheck)) None)
   | FCheck => (s, goto r (lookup_fixed c m v))
@@ -413,11 +467,13 @@ Definition pstep (c : cfg) (p : nat) (s : shared) (r : proc) : shared * proc :=
       end
   | FReadInstalled => (s, goto r (Done OLoaded))
   | XEnter =>
-      if within c s then (s, set_err (goto r (Done OSkipped)))
-      else (s, set_ts (goto r XAcquire) (clock s))
+      let o := owner_of (kind_of r) p in
+      if within_for c o s then (remember c o s, set_err (goto r (Done OSkipped)))
+      else (remember c o s, set_ts (goto r XAcquire) (clock s))
   | XAcquire => acquire_step c p s r XBody (Done OSkipped)
-  | XBody => (add_net s, goto r XExit)
-  | XExit => (leave c p (fd r) (set_stamp s (StampAt (ts r))), set_fd (goto r (Done OSkipped)) None)
+  | XBody => (add_net s, inc_req (goto r XExit))
+  | XExit => (leave c p (fd r) (memo_written c (owner_of (kind_of r) p) (ts r) (set_stamp s (StampAt (ts r)))),
+              set_fd (goto r (Done OSkipped)) None)
   | Done _ => (s, r)
   | Dead => (s, r)
   end.
@@ -455,7 +511,7 @@ Definition step (c : cfg) (w : world) (e : event) : world :=
 
 Definition run (c : cfg) (w : world) (evs : list event) : world := fold_left (step c) evs w.
 
-Definition sh0 (t : nat) : shared := mkSh [] NoStamp None [] 0 t 0.
+Definition sh0 (t : nat) : shared := mkSh [] NoStamp None [] 0 t 0 [].
 
 (* an empty cache directory at time t and one process per kind *)
 Definition init (t : nat) (ks : list kind) : world := mkW (sh0 t) (map start ks).
@@ -502,7 +558,7 @@ Definition all_done (w : world) : Prop :=
 Definition is_cur_kind (k : kind) : bool :=
   match k with KLoad _ | KRefresh => true | _ => false end.
 Definition is_fixed_kind (k : kind) : bool :=
-  match k with KLoadFixed _ | KRefreshFixed | KDownload _ => true | _ => false end.
+  match k with KLoadFixed _ | KRefreshFixed | KRefreshOf _ | KDownload _ => true | _ => false end.
 Definition is_download_kind (k : kind) : bool :=
   match k with KDownload _ => true | _ => false end.
 
